@@ -319,6 +319,17 @@ pub fn judge(c: &Case, r: &RunResult, rec: &CaseRec) -> Check {
                     } else {
                         "reliable-channel-incomplete"
                     };
+                    if quiescent_stall(r, std::time::Duration::from_secs(5)) {
+                        return Err(Fail::new(
+                            format!("{}:quiescent", sig),
+                            format!(
+                                "channel {} at {:?}: {}/{} accepted messages delivered, senders_done={}, no closure reported and the association silent (heartbeats only) for {:.1}s; not yet returned/issued: {:?}; A: {} | B: {}; trace: {}",
+                                ch.id, recv_side, delivered_ops.len(), accepted, r.senders_done,
+                                r.end_us.saturating_sub(last_activity_us(&r.trace)) as f64 / 1e6,
+                                unsent, r.diag[0], r.diag[1], describe_trace(&r.trace, 40)
+                            ),
+                        ));
+                    }
                     return Err(Fail::timing(
                         sig,
                         format!(
